@@ -329,5 +329,7 @@ def replay(ctx, o):
     if key == 'C06/GammaQ/dispatch':
         import mpmath
         ref = float(mpmath.gammainc(a, x, mpmath.inf, regularized=True)) if x > 0 else 1.0
-        return abs(r.get('ret', 9) - ref) > 1e-3, 'native GammaQ(%r,%r)=%s reference %r' % (x, a, r.get('ret', r['status']), ref)
+        # the property's own accuracy figures decide whether a different branch matters: 1e-12 for a <= 100 (1e-10 here, leaving room for the reference), 1e-3 beyond
+        tol = 1e-10 if a <= 100.0 else 1e-3
+        return abs(r.get('ret', 9) - ref) > tol, 'native GammaQ(%r,%r)=%s reference %r (allowed deviation %g)' % (x, a, r.get('ret', r['status']), ref, tol)
     return False, 'no replay rule for ' + key
